@@ -42,8 +42,9 @@ ASSUMPTIONS = [
     "information through table/csv, judged for json / pytorch only; empty containers are not generated",
     "numpy int32 scalars are drawn within +-100 (pandas builds a float32 column from a mix of numpy float32 and int32 scalars, so an "
     "int32 above 2**24 mixed with float32 scalars of other individuals is rounded in the table form: not judged)",
-    "unsupported value types judged: str, None, dict, complex, object, set, lists of those, nested lists; bool / tuple / empty list / "
-    "torch tensors are run for information only",
+    "unsupported value types judged: str, None, dict, complex, object, set, bool (the container's own list of valid scalar types is int, float and "
+    "numpy's 32/64-bit ints and floats, matched by exact type), lists of those, nested lists; tuple / empty list / torch tensors are run "
+    "for information only",
 ]
 
 STAGES = ("dataframe", "pytorch", "csv", "json")
@@ -395,10 +396,10 @@ def run_shard(spec, ctx):
             p = names[int(r.integers(len(names)))]
             sh = M.shapes[p]
             if sh == ():
-                bad = ["0.5", None, {"a": 1.0}, 1 + 2j, object(), {1.0}][int(r.integers(6))]
+                bad = ["0.5", None, {"a": 1.0}, 1 + 2j, object(), {1.0}, True, False, np.bool_(True)][int(r.integers(9))]
             else:
                 k = sh[0]
-                bad = [["0.5"] * k, [None] * k, [[1.0]] * k, [1 + 2j] * k, [{"a": 1}] * k][int(r.integers(5))]
+                bad = [["0.5"] * k, [None] * k, [[1.0]] * k, [1 + 2j] * k, [{"a": 1}] * k, [True] * k, [bool(b) for b in r.integers(0, 2, k)]][int(r.integers(7))]
             d = good()
             d[p] = bad
             out.append(("unsupported-type", True, fresh, d))
@@ -409,7 +410,7 @@ def run_shard(spec, ctx):
                 d = good()
                 v = list(d[p])
                 pos = int(r.integers(1, len(v)))
-                v[pos] = ["a", None, [1.0], 1j, {"x": 1}][int(r.integers(5))]
+                v[pos] = ["a", None, [1.0], 1j, {"x": 1}, True, False][int(r.integers(7))]
                 d[p] = v
                 out.append(("list-tail-unsupported", True, fresh, d))
         # inconsistent shapes
@@ -440,7 +441,7 @@ def run_shard(spec, ctx):
         p = names[int(r.integers(len(names)))]
         d = good()
         sh = M.shapes[p]
-        d[p] = [True, (0.5,) if sh == () else tuple([0.5] * sh[0]), torch.tensor(0.5) if sh == () else torch.zeros(sh[0])][int(r.integers(3))]
+        d[p] = [(0.5,) if sh == () else tuple([0.5] * sh[0]), torch.tensor(0.5) if sh == () else torch.zeros(sh[0])][int(r.integers(2))]
         out.append(("info", False, fresh, d))
         return out
 
@@ -492,7 +493,8 @@ def run_shard(spec, ctx):
                 ip = build()
         # first addition to an empty container
         firsts = [(7, {"xi": 0.5}, "non-str-id"), ("a", {"xi": "0.5"}, "unsupported-type"), ("a", {"xi": [0.5, "b"]}, "list-tail-unsupported"),
-                  ("a", [0.5], "not-a-dict"), ("a", {"xi": []}, "info"), ("a", {"xi": [[0.5]]}, "unsupported-type")]
+                  ("a", [0.5], "not-a-dict"), ("a", {"xi": []}, "info"), ("a", {"xi": [[0.5]]}, "unsupported-type"), ("a", {"xi": True}, "unsupported-type"),
+                  ("a", {"xi": [0.5, True]}, "list-tail-unsupported")]
         idx, d, cls = firsts[int(r.integers(len(firsts)))]
         e0 = IP()
         try:
